@@ -278,6 +278,103 @@ def play(seed: int, now: tuple[int, int], hist: list, h: str = "SHA512", now_l0:
     return w.events
 
 
+def play_threads(seed: int, now: tuple[int, int], plans: list[list], h: str = "SHA512") -> list[dict]:
+    """Thread-level sharing of one KeyCache: each inner list is the sequence of sync calls one thread makes.  The
+    interleaving is whatever the scheduler does; every observed history must still be accepted (events are appended
+    atomically, a call's 'begin' is logged before it starts and its 'end' after it returned, so 'later call' is sound)."""
+    import threading
+
+    import dpapi_ng
+
+    w = World(seed, now, h)
+    w.dc.force_reply = w.on_get_key
+    orig_get_key = w.dc.get_key
+    lock = threading.Lock()
+
+    def get_key_logged(sd, rkid, l0, l1, l2, force=None):  # noqa
+        with lock:
+            r = orig_get_key(sd, rkid, l0, l1, l2, force)
+        w.note_reply(refdc.CURRENT_OP.get() or "?", r[2])
+        return r
+
+    w.dc.get_key = get_key_logged  # type: ignore
+    kw = dict(server="dc01", username=USER, password=refdc.PASSWORD, auth_protocol="ntlm", cache=w.cache)
+    blobs = {}
+    for plan in plans:      # inputs are prepared before the threads start (the harness itself must not race)
+        for (o, kind, rk, sd, l0, pos) in plan:
+            if kind == "unprotect":
+                blobs[o] = w.make_blob(o, rk, sd, l0, tuple(pos))
+            elif kind == "protect":
+                w.plain[o] = f"protect-{o}".encode()
+                for r_ in ("rk1", "rk2"):
+                    w.dc.keyset(w.rk[r_][0], sdref.target_sd(SIDS[sd]), w.l0_conc(2))
+
+    def worker(plan: list) -> None:
+        for (o, kind, rk, sd, l0, pos) in plan:
+            if kind == "load":
+                rid, key = w.rk[rk]
+                w.cache.load_key(key, rid, kdf_parameters=refdc.kdf_parameters(w.h))
+                w.events.append({"ev": "load", "rk": rk})
+                continue
+            blob = blobs.get(o)
+            refdc.CURRENT_OP.set(o)
+            w.events.append({"ev": "begin", "o": o, "kind": kind, "rk": rk, "sd": sd, "l0": l0, "pos": list(pos)})
+            exc, val = None, None
+            try:
+                if kind == "unprotect":
+                    val = dpapi_ng.ncrypt_unprotect_secret(blob, **kw)
+                else:
+                    val = dpapi_ng.ncrypt_protect_secret(w.plain[o], SIDS[sd], root_key_identifier=(w.rk[rk][0] if rk != NORK else None), **kw)
+            except BaseException as e:  # noqa
+                exc = e
+            if exc is not None:
+                res = {"res": "budget" if isinstance(exc, taps.BudgetExceeded) else "error:" + type(exc).__name__}
+            elif kind == "unprotect":
+                res = {"res": "plain_ok" if val == w.plain[o] else "plain_wrong"}
+            else:
+                res = w.judge_blob(o, sd, val)
+            w.events.append({"ev": "end", "o": o, "named": res.get("named", ["-", "-", -1, -1, -1]), "res": res["res"]})
+
+    with refdc.Network(w.dc), taps.clock(__import__("dpapi_ng._client", fromlist=["x"]), lambda: w.unix_ns), taps.KdfTap(budget=5000, record=False):
+        ths = [threading.Thread(target=worker, args=(p,), daemon=True) for p in plans]
+        for t_ in ths:
+            t_.start()
+        for t_ in ths:
+            t_.join(120)
+        begun = [e["o"] for e in list(w.events) if e["ev"] == "begin"]
+        ended = {e["o"] for e in list(w.events) if e["ev"] == "end"}
+        for o in begun:
+            if o not in ended:
+                w.events.append({"ev": "end", "o": o, "named": ["-", "-", -1, -1, -1], "res": "hang"})
+    return list(w.events)
+
+
+def _thread_histories(ctx: Ctx, n: int, base_id: int) -> list[dict]:
+    rows = []
+    rng = ctx.rng
+    for i in range(n):
+        now = (rng.randrange(32), rng.randrange(32))
+        rk, sd = rng.choice(["rk1", "rk2"]), rng.choice(["sdA", "sdB"])
+        pool = [p for p in [(rng.randrange(32), rng.randrange(32)) for _ in range(4)] + [(0, 0), now] if p <= now] or [now]
+        plans, k = [], 0
+        for th in range(rng.randrange(2, 5)):
+            plan = []
+            for _ in range(rng.randrange(1, 4)):
+                k += 1
+                if rng.random() < 0.1:
+                    plan.append((f"o{k}", "load", rk, "-", -1, [-1, -1]))
+                elif rng.random() < 0.8:
+                    l0 = rng.choice([1, 2, 2])
+                    plan.append((f"o{k}", "unprotect", rk, sd, l0, list(rng.choice(pool) if l0 == 2 else (rng.randrange(32), rng.randrange(32)))))
+                else:
+                    plan.append((f"o{k}", "protect", rng.choice([rk, NORK]), sd, -1, [-1, -1]))
+            plans.append(plan)
+        evs = play_threads(ctx.seed * 7919 + i, now, plans)
+        rows.append({"id": base_id + i, "now": list(now), "nowl0": 2, "defrk": "rk1", "events": evs, "source": "threads", "hist": plans})
+        ctx.distinct(("threads", i))
+    return rows
+
+
 # ---- behaviour sources ------------------------------------------------------------------------
 def _write_mc_cfg(ctx: Ctx, name: str, **kw: str) -> str:
     base = {
@@ -514,8 +611,21 @@ def _run_histories(ctx: Ctx, hs: list[tuple[tuple[int, int], list]], base_id: in
 
 def _judge(ctx: Ctx, rows: list[dict], bad: dict) -> None:
     by = {r["id"]: r for r in rows}
-    for i, clauses in bad.items():
+    for i, clauses in list(bad.items()):
         r = by[i]
+        ext = [c for c in clauses if c.startswith("EXT_")]
+        for c in ext:
+            ctx.note_drift("extended_behaviour:" + c)
+        clauses = [c for c in clauses if not c.startswith("EXT_")]
+        if r.get("source") == "threads":
+            # thread-level sharing of a KeyCache is outside the property's quantifier (sequences and asyncio interleavings):
+            # explored and reported, never a VIOLATION (a lost update between two threads would be timing dependent)
+            for c in clauses:
+                if not c.startswith("MACHINERY"):
+                    ctx.note_drift("extended_behaviour:EXT_threads_" + c)
+            continue
+        if not clauses:
+            continue
         if any(c.startswith("MACHINERY") for c in clauses):
             raise MachineryError(f"trace rejected for a machinery reason {clauses}: {json.dumps(r)[:1500]}")
         ends = [e["res"] for e in r["events"] if e["ev"] == "end" and e["res"] not in ("plain_ok", "blob_ok")]
@@ -532,6 +642,7 @@ def run(ctx: Ctx) -> int:
     rows = _run_histories(ctx, emitted, 0, "tlc-behaviour")
     rnd = _random_histories(ctx, ctx.pick(320, 6000))
     rows += _run_histories(ctx, rnd, 1_000_000, "random-driver")
+    rows += _thread_histories(ctx, ctx.pick(40, 600), 2_000_000)
     ctx.count(len(rows))
     slim = [{k: r[k] for k in ("id", "now", "nowl0", "defrk", "events")} for r in rows]
     bad, stats = validate(ctx, "TraceCache", "TraceCache.cfg", slim, chunk=ctx.pick(150, 600), what="hist")
